@@ -93,7 +93,11 @@ def build_harness(log):
     bindir = os.path.join(VERIF, ".build")
     os.makedirs(bindir, exist_ok=True)
     with Lock("go"):
-        shutil.copyfile(os.path.join(HARNESS, "go.mod.tmpl"), os.path.join(HARNESS, "go.mod"))
+        # the module under test is /repo unless VERIF_REPO points at a scratch copy (seed runs, background runs)
+        with open(os.path.join(HARNESS, "go.mod.tmpl")) as f:
+            gomod = f.read().replace("=> /repo", "=> " + REPO)
+        with open(os.path.join(HARNESS, "go.mod"), "w") as f:
+            f.write(gomod)
         shutil.copyfile(os.path.join(REPO, "go.sum"), os.path.join(HARNESS, "go.sum"))
         # stale binary is removed first: a failed build must not leave yesterday's harness in place
         out = os.path.join(bindir, "vh")
